@@ -162,6 +162,17 @@ func runPriv(b []byte) string {
 	if m := checkPub(k.PublicKey(), ref.BaseMul(v)); m != "" {
 		return "public key: " + m
 	}
+	// the crypto.Signer / crypto.Decrypter-style entry point hands out the same key
+	if pub, ok := k.Public().(*secec.PublicKey); !ok {
+		return "Public() does not return a *PublicKey"
+	} else if m := checkPub(pub, ref.BaseMul(v)); m != "" {
+		return "the key returned by Public(): " + m
+	} else if !pub.Equal(k.PublicKey()) {
+		return "Public() and PublicKey() are not Equal"
+	}
+	if s := k.Scalar(); !bytes.Equal(s.Bytes(), b) {
+		return "Scalar() differs from the input"
+	}
 	if h := secec.VerifPrivInternals; h != nil {
 		if ds, _ := h(k); !bytes.Equal(ds.Bytes(), b) {
 			return "internal scalar differs"
